@@ -341,6 +341,8 @@ def main(argv=None):
         with mp.get_context('fork').Pool(min(a.jobs, len(tasks)), maxtasksperchild=8) as pool:
             for r in pool.imap_unordered(run_task, tasks, chunksize=1):
                 results.append(r)
+                if os.environ.get('VERIF_VERBOSE'):
+                    print('  task %s %s: paths=%d wall=%.0fs %s' % (r['obligation'], r['params'], r['paths'], r['wall_s'], r['inconclusive'] or ''), flush=True)
     results.sort(key=lambda r: (r['obligation'], json.dumps(r['params'], sort_keys=True)))
 
     viol = [v for r in results for v in r['violations']]
